@@ -37,6 +37,8 @@ func init() {
 				validKeyRejectionsRule(P, R)
 				treeRejectionsRule(P, R, "C17.h", "keyproof", "the key-proof verification call tree")
 			}},
+		Rule{ID: "C17.i", Explain: "aliasing discipline: verifying a key proof leaves the proof and the structure unchanged - no function mutates in place a big.Int it reached through keyproof.ValidKeyProof / keyproof.ValidKeyProofStructure / keyproof.PedersenProof / keyproof.RangeProof / keyproof.Proof (math/big mutators write their receiver), except the tabled merge/refresh functions.",
+			Run: func(P *Program, R *Report) { inPlaceDisciplineRule(P, R, "C17.i", "keyproof.ValidKeyProof", "keyproof.ValidKeyProofStructure", "keyproof.PedersenProof", "keyproof.RangeProof", "keyproof.Proof") }},
 		Rule{ID: "C17.g", Explain: "CanProve tests the residue conditions and safe primality (C16.f).",
 			Run: func(P *Program, R *Report) { canProveRule(P, R, "C17.g") }},
 	)
